@@ -59,6 +59,15 @@ class ScopeGen:
                     lines.append("%s%s = { %s = %s; };" % (ind, hname, n, self.lit()))
             else:
                 lines.append("%s%s = %s + 1;" % (ind, n, self.lit()))
+        if rng.random() < 0.12 and len(names) <= 1:
+            # diamond: two clauses inherit from one source whose member refers (outward) to the other inherited
+            # name - the source is reached twice on one chain without any cycle
+            a, b = rng.sample(NAMES, 2)
+            if not any(l.lstrip().startswith((a + " ", b + " ", "inherit " + a, "inherit " + b)) or (" " + a + ";") in l or (" " + b + ";") in l for l in lines):
+                hname = "s%d" % (self.k + 1)
+                lines.append("%sinherit (%s) %s;" % (ind, hname, a))
+                lines.append("%sinherit (%s) %s;" % (ind, hname, b))
+                lines.append("%s%s = { %s = %s; %s = %s; };" % (ind, hname, a, b, b, self.lit()))
         if self.cycles and rng.random() < 0.06 and not names:
             a, b = rng.sample(NAMES, 2)
             lines.append("%s%s = %s;" % (ind, a, b))
